@@ -1651,9 +1651,58 @@ pub fn run(args: &Args) {
         rec.count("histories");
         let _ = std::fs::remove_dir_all(&work);
     }
+    // ---- directed: crash images with SEVERAL non-empty write-ahead logs -----------------------
+    // A single-stepped history never leaves two: a flush rotates, builds, links and ingests without
+    // a scheduling point, so a crash inside it finds the fresh log empty.  The state is the one a
+    // process death leaves when the flush is parked in the level-0 ingest stall (real
+    // memtable_thread on a helper thread) while a client keeps writing; it is made by
+    // `c04::several_logs_image` (with the store itself, or LogBuilder files by hand), reopened in a
+    // fresh process like every other image, and read back.  Oracle only (the batch-granular model
+    // has no client that writes during a flush): the reopen succeeds and shows every
+    // acknowledged write.
+    for i in 0..(if args.thorough { 24u64 } else { 6 }) {
+        let mut rng = Rng::for_case(args.seed, 1023, i);
+        let variant = crate::c04::SEVERAL_LOGS_VARIANTS[(i % 6) as usize];
+        let (cfg, nkeys) = crate::c04::several_logs_cfg(&mut rng);
+        let root = scratch_dir(&format!("c02.logs.{}", i));
+        let tag = format!("# several-logs image {} {}", i, variant);
+        match crate::c04::several_logs_image(&mut rng, variant, &cfg, nkeys, &root) {
+            Err((class, detail)) => {
+                let _ = std::fs::remove_dir_all(&root);
+                let _ = std::fs::remove_dir_all(format!("{}.image", root));
+                rec.case(&tag, "#", Verdict::Fail { class, detail }, None)
+            }
+            Ok((dir, oracle)) => {
+                let nlogs = std::fs::read_dir(&dir).map(|rd| rd.flatten().filter(|e| e.file_name().to_string_lossy().starts_with("log.") && e.metadata().map(|m| m.len() > 0).unwrap_or(false)).count()).unwrap_or(0);
+                let mut want = String::new();
+                for k in ALPHABET[..nkeys].iter() {
+                    match oracle.get(*k).cloned().flatten() {
+                        Some(v) => want.push_str(&format!("{}={}\n", hex(k), hex(&v))),
+                        None => want.push_str(&format!("{}!\n", hex(k))),
+                    }
+                }
+                let live: Vec<String> = oracle.iter().filter_map(|(k, v)| v.as_ref().map(|v| format!("{}={}", hex(k), hex(v)))).collect();
+                want.push_str(&format!("scan {}\n", live.join(",")));
+                let r = reopen_image(&exe, &dir, &cfg, nkeys, None);
+                let _ = std::fs::remove_dir_all(&dir);
+                rec.count(&format!("several_logs_image.{}", variant));
+                rec.add("several_logs_image.nonempty_logs", nlogs as u64);
+                let v = if r.code != Some(0) {
+                    Verdict::Fail { class: if r.d9 { "reopen-with-key-and-timestamp-overlapping-files".into() } else { "reopen-fails-on-several-logs".into() }, detail: format!("image {} ({}; {} non-empty logs): the store does not reopen: {}", i, variant, nlogs, r.text.chars().filter(|c| *c != '\n').take(300).collect::<String>()) }
+                } else if r.text != want {
+                    Verdict::Fail { class: if r.d9 { "reopen-with-key-and-timestamp-overlapping-files".into() } else { "acknowledged-write-lost-in-recovery".into() }, detail: format!("image {} ({}; {} non-empty logs): read back {:?}, acknowledged {:?}", i, variant, nlogs, r.text, want) }
+                } else if r.d9 {
+                    Verdict::Taint { class: "reopen-with-key-and-timestamp-overlapping-files".into() }
+                } else {
+                    Verdict::Ok
+                };
+                rec.case(&tag, "#", v, Some(fnv(tag.as_bytes())));
+            }
+        }
+    }
     run_multi_writer(args, &mut rec, &exe);
     rec.finish(
-        "seeded single-stepped store histories (puts, dels, multi-key batches in a quarter of them, flushes, compaction steps, reopens, verifier passes) run once under strace; a crash is simulated before every file-system-mutating system call (write, fsync/fdatasync, link, rename, unlink, mkdir, rmdir, create) and after the last one, under (a) completed calls persist and (b) unsynced file bytes are lost; every distinct image is reopened by the real code in a fresh process and read back (point reads of every key and a full scan); for a seeded sample of the images the reopen is traced, compared with the model's recovery of the same crash point, crashed before each of ITS mutating calls (both models again), reopened and compared once more; a seeded sample of single injected faults per history is replayed in the model at the same operation (failed call, surfaced/absorbed, acknowledgements, calls after the failure, batches found by the reopen after the process exit and after a power loss on top); a multi-writer fault family (2..4 client threads inside KeyValueStore::put at once, lock-step or free, every thread's fdatasyncs failing from its K-th on or only its K-th, strace inject; oracle only: at each acknowledgement the put's bytes lie in the prefix of the log covered by a successfully returned fdatasync, and the images after the process exit and after a power loss at the end of the run reopen with every acknowledged put and nothing no client wrote); non-trivial = every distinct (history, crash point, model, image) reopened, every distinct (history, fault), every compared operation list, every multi-writer fault run",
+        "seeded single-stepped store histories (puts, dels, multi-key batches in a quarter of them, flushes, compaction steps, reopens, verifier passes) run once under strace; a crash is simulated before every file-system-mutating system call (write, fsync/fdatasync, link, rename, unlink, mkdir, rmdir, create) and after the last one, under (a) completed calls persist and (b) unsynced file bytes are lost; every distinct image is reopened by the real code in a fresh process and read back (point reads of every key and a full scan); for a seeded sample of the images the reopen is traced, compared with the model's recovery of the same crash point, crashed before each of ITS mutating calls (both models again), reopened and compared once more; a seeded sample of single injected faults per history is replayed in the model at the same operation (failed call, surfaced/absorbed, acknowledgements, calls after the failure, batches found by the reopen after the process exit and after a power loss on top); a multi-writer fault family (2..4 client threads inside KeyValueStore::put at once, lock-step or free, every thread's fdatasyncs failing from its K-th on or only its K-th, strace inject; oracle only: at each acknowledgement the put's bytes lie in the prefix of the log covered by a successfully returned fdatasync, and the images after the process exit and after a power loss at the end of the run reopen with every acknowledged put and nothing no client wrote); non-trivial = every distinct (history, crash point, model, image) reopened, every distinct (history, fault), every compared operation list, every multi-writer fault run; plus directed crash images with several non-empty write-ahead logs (a flush parked in the ingest stall while clients write, made with the store itself, or written by hand), reopened in a fresh process and read back (oracle only)",
         &[],
     );
 }
